@@ -586,7 +586,7 @@ func GenValue(r *core.Rand, lookup func(string) *m.Item, t *m.Type, depth int, n
 		return &m.Value{Kind: m.VInt, Raw: r.Pick("0", "1", "-1", "42", "2147483647", "-2147483648", "7")}
 	case "Float":
 		if r.Bool() {
-			return &m.Value{Kind: m.VFloat, Raw: r.Pick("1.5", "-0.5", "1e3", "6.02E23", "0.0")}
+			return &m.Value{Kind: m.VFloat, Raw: r.Pick("1.5", "-0.5", "1e3", "6.02E23", "0.0", "1E3", "-2E+10", "-0.0", "1e-7", "0e0")}
 		}
 		return &m.Value{Kind: m.VInt, Raw: r.Pick("0", "3", "-2")}
 	case "String":
@@ -717,7 +717,7 @@ func (g *sgen) deprecated(have []m.Dir) []m.Dir {
 	}
 	d := m.Dir{Name: "deprecated"}
 	if g.r.Bool() {
-		d.Args = []m.Arg{{Name: "reason", Value: &m.Value{Kind: m.VString, Raw: g.r.Pick("old", "use other", "")}}}
+		d.Args = []m.Arg{{Name: "reason", Value: &m.Value{Kind: m.VString, Raw: g.r.Pick("old", "use other", "", "No longer supported", "no longer supported")}}}
 	}
 	return append(have, d)
 }
